@@ -117,9 +117,11 @@ fn cases() -> Vec<Case> {
         case("float div pow", CF, "", &[one!("c /= 4.0"), one!("c **= 2.0")], None, false),
         case("union cell changes kind", CU, "", &[one!("c = 2.5"), one!("c = \"s\""), one!("*c")], None, false),
         // 7. state hidden in the parsed program must not couple runs that share no cell
-        case("type filter default cells are private", NONE, "", &[one!("{ it := [1]~ ? mut int; (m, c) := it(); c += 5; *c }"), one!("{ it := [1]~ ? mut int; (m, c) := it(); c += 5; *c }")], None, false),
-        case("type filter default cells, shared function", NONE, "shared := () -> int { it := [1]~ ? mut int; (m, c) := it(); c += 5; return *c }", &[one!("shared()"), one!("shared()")], None, false),
+        case("type filter default cells are private", NONE, "", &[one!("{ it := [1]~ ? mut int; (m, c) := it(); c += 5; *c }"), one!("{ it := [1]~ ? mut int; (m, c) := it(); c += 5; *c }")], Some(3), false),
+        case("type filter default cells, shared function", NONE, "shared := () -> int { it := [1]~ ? mut int; (m, c) := it(); c += 5; return *c }", &[one!("shared()"), one!("shared()")], Some(3), false),
         case("iterator defaults are private", NONE, "", &[one!("{ it := [mut 1][1:]~; (m, c) := it(); c += 5; *c }"), one!("{ it := [mut 1][1:]~; (m, c) := it(); c += 5; *c }")], None, false),
+        case("printing private nested cells", NONE, "", &[one!("std.convert.to_string(mut mut mut 1)"), one!("std.convert.to_string(mut mut mut 2)")], None, false),
+        case("printing private nested cells x3", NONE, "", &[one!("std.convert.to_string([mut mut 1, mut mut 2])"), one!("std.convert.to_string(mut mut 3)"), one!("std.convert.to_string(mut mut mut 4)")], Some(3), false),
         case("array cell two ops each", CA, "", &[("{ c += [1]; c += [2] }", &["c += [1]", "c += [2]"]), ("{ c += [3]; c = *c + [4] }", &["c += [3]", "t := *c", "c = t + [4]"])], Some(3), true),
     ]
 }
@@ -241,6 +243,11 @@ fn execution(case: &Case) {
             })
             .collect()
     });
+    // runs that share no cell are explored under every order of their cell accesses (the world
+    // variable makes accesses to different cells conflict): sharing behind the scheduler's back shows
+    if case.cells.is_empty() {
+        simplesl::verif_loom::set_world(Some(Arc::new(loom::sync::atomic::AtomicUsize::new(0))));
+    }
     // concurrent run; threads with the same program text execute one parsed program
     let env = fresh_env(case);
     let mut parsed: Vec<(&str, Code)> = Vec::new();
@@ -258,6 +265,7 @@ fn execution(case: &Case) {
         .collect();
     let handles: Vec<_> = codes.into_iter().map(|code| big(move || run_one(&code))).collect();
     let results: Vec<String> = handles.into_iter().map(|h| h.join().expect("worker panicked")).collect();
+    simplesl::verif_loom::set_world(None);
     let outcome = format!("results=[{}] cells=[{}]", results.join(" | "), finals(&env));
     EXECUTIONS.fetch_add(1, Ordering::Relaxed);
     OUTCOMES.lock().unwrap().insert(outcome.clone());
